@@ -40,9 +40,7 @@ func (s *segmentTimelineGenerator) addSegmentData(log *slog.Logger, item recSegD
 	trName := item.name
 	if _, ok := s.segDataBuffers[trName]; !ok {
 		s.segDataBuffers[trName] = newSegDataBuffer(s.windowSize)
-		if s._started { // a track that delivers its first segment after the start counts from now on
-			s._nrTracks = uint32(len(s.segDataBuffers))
-		}
+		s.setNrTracks(uint32(len(s.segDataBuffers)))
 	}
 	err = s.segDataBuffers[trName].add(item)
 	if err != nil {
@@ -87,7 +85,14 @@ func (s *segmentTimelineGenerator) start(newWindowSize uint32, isShifted bool) {
 			}
 		}
 	}
-	s._nrTracks = uint32(len(s.segDataBuffers))
+	s.setNrTracks(uint32(len(s.segDataBuffers)))
+}
+
+// setNrTracks raises the number of tracks that must have a segment before a number is listed.
+func (s *segmentTimelineGenerator) setNrTracks(n uint32) {
+	if n > s._nrTracks {
+		s._nrTracks = n
+	}
 }
 
 // generateSegmentTimelineNrMPD generates the SegmentTimelineNr MPD for the channel and writes it to disk.
